@@ -770,8 +770,11 @@ impl Range {
                 return Err(message);
             }
             string = boxed_line.unwrap();
+        }
 
-            // boundary is followed either by a part or, in case of the last boundary, by the end of the body
+        // boundary is followed either by a part or, in case of the last boundary, by the end of the body
+        // (boundary in front of the second and the following parts is read as the end of the previous part)
+        if is_opening_boundary_read {
             is_part_expected = string.trim().len() != 0;
         }
 
